@@ -1,19 +1,14 @@
 (* C01 - Write then read returns the same packet, field for field. *)
-From MQ Require Import Model.Stream Proofs.BytesP Proofs.VbP Proofs.WireP Proofs.StreamP Proofs.EncP
-     Proofs.FrameP Proofs.DispatchP.
+From MQ Require Import Model.Stream Model.Api Proofs.BytesP Proofs.VbP Proofs.WireP Proofs.StreamP Proofs.EncP
+     Proofs.FrameP Proofs.DispatchP Proofs.PropsP Proofs.RoundP Proofs.DomP.
 
 (* Proved: (1) every wire type round-trips over an arbitrary suffix, for
-   every value inside MQTT's limits - in particular strings and binary data
-   of every length up to 65 535 and variable byte integers of every length
-   class, which is where sizes that move the remaining-length and property
-   length fields between their forms are covered, not by cases; (2) the
-   frame layer: what WriteTo emits is one frame that ReadPacket consumes
-   exactly and dispatches to the same packet type with the same first
-   byte. The field-by-field statement for whole packets of each type
-   (C01_full below) is not yet a theorem; it is decided on the
-   implementation by the round-trip oracle (accessor equality and
-   byte-identical re-encoding on generated packets of the stated domain)
-   and on the model by the correspondence suites. *)
+   every value inside MQTT's limits; (2) the frame layer: what WriteTo
+   emits is one frame that ReadPacket consumes exactly and dispatches to
+   the same packet type; (3) C01_roundtrip below: the whole statement, for
+   every packet of the domain of each of the fifteen types, with no bound
+   on the number of user properties, filters, reason codes or
+   subscription identifiers, nor on string lengths below 65 536. *)
 
 Theorem C01_wire_roundtrips : forall rest,
   (forall n, n < 256 -> dec_u8 (enc_u8 n ++ rest) = Ok n)
@@ -59,14 +54,85 @@ Proof.
 Qed.
 Print Assumptions C01_frame.
 
-(* The full statement, for reference (not proved). *)
-Definition C01_full : Prop :=
-  forall k h, k <> KUndefined -> Forall (fun c => applicable k c = true) h ->
-    (* arguments within MQTT's limits *) True ->
-    let p := run_calls k h in
-    exists bs p', encode_pkt k p = Some bs
-      /\ decode_frame (n2b (getN (M F_fixed) p)) (skipn (1 + length (enc_vb (len bs))) bs) = Some (Some (k, p'), None)
-      /\ snapshot k p' = snapshot k p /\ encode_pkt k p' = Some bs.
+(* The full statement.  [dom k p] (Proofs/RoundP.v) is the C01 domain as a
+   predicate on the packet a history of constructor and setter calls
+   leaves: every field within its wire type's range, user-property keys
+   non-empty, subscription identifiers 1..268 435 455, the first byte that
+   of the constructor (any flag nibble for PUBLISH), a remaining length
+   within MQTT's limit, and for CONNECT a will that was not modified after
+   it was attached (its first byte and payload are those the connect flags
+   and willPayload record).  For every such packet of any of the fifteen
+   types: WriteTo's bytes are one frame; ReadPacket on any delivery of those
+   bytes followed by anything consumes exactly them, returns no error and a
+   packet of the same type; every accessor of that packet returns what the
+   original's returns (snapshot: scalars, flags, the will, ordered lists
+   with duplicates); and writing it again gives byte-identical output. *)
+Theorem C01_roundtrip : forall k p, dom k p ->
+  exists bs p',
+    encode_pkt k p = Some bs
+    /\ (forall s rest, sbytes s = bs ++ rest -> avail (len bs) s = true ->
+         exists tr, read_packet s =
+           RP {| r_pkt := Some (k, p'); r_err := None; r_rest := sdrop (len bs) s;
+                 r_trace := tr; r_got := bs |})
+    /\ snapshot k p' = snapshot k p
+    /\ encode_pkt k p' = Some bs.
+Proof.
+  intros k p Hd. destruct (roundtrip_all k p Hd) as [body [p' [He [Hl [Hdec [Hs Hre]]]]]].
+  exists (n2b (getN (M F_fixed) p) :: enc_vb (len body) ++ body), p'.
+  split; [exact He|]. split; [|split; [exact Hs|rewrite Hre; exact He]].
+  intros s rest Hsb Hav. destruct (enc_vb_wf _ Hl) as [W V].
+  apply (read_packet_frame (n2b (getN (M F_fixed) p)) (enc_vb (len body)) body rest s); try assumption.
+  - symmetry. exact V.
+  - rewrite Hsb. cbn [app]. rewrite <- app_assoc. reflexivity.
+Qed.
+Print Assumptions C01_roundtrip.
+
+(* The same for every packet built through the public API: any history of
+   constructor and setter calls applicable to the type, each argument within
+   MQTT's limits (call_ok, Proofs/DomP.v: strings and binary data below
+   65 536 bytes, numbers within their field, QoS 0..2, subscription
+   identifiers 1..268 435 455, non-empty user-property keys, a will that is
+   itself such a PUBLISH without DUP, packet identifier, topic alias or
+   subscription identifiers), leaves a packet of the domain, provided the
+   two conditions MQTT puts across fields hold (no packet identifier on a
+   QoS 0 PUBLISH, no will delay interval without a will) and the frame is
+   within the 268 435 455-byte limit. *)
+Theorem C01_api : forall k h, k <> KUndefined ->
+  Forall (fun c => applicable k c = true) h -> Forall call_ok h ->
+  let p := run_calls k h in
+  cross_ok k p -> remaining_ok k p ->
+  exists bs p',
+    encode_pkt k p = Some bs
+    /\ (forall s rest, sbytes s = bs ++ rest -> avail (len bs) s = true ->
+         exists tr, read_packet s =
+           RP {| r_pkt := Some (k, p'); r_err := None; r_rest := sdrop (len bs) s;
+                 r_trace := tr; r_got := bs |})
+    /\ snapshot k p' = snapshot k p
+    /\ encode_pkt k p' = Some bs.
+Proof.
+  intros k h Hk Ha Ho p Hc Hs. apply C01_roundtrip. apply api_dom; assumption.
+Qed.
+Print Assumptions C01_api.
+
+(* the domain is inhabited: a CONNECT with a will and credentials, a PUBLISH
+   with QoS 1, subscription identifiers and payload, an empty DISCONNECT *)
+Example C01_dom_inhabited :
+  let s l := map n2b l in
+  roundtrip KPubAck (run_calls KPubAck [SetPacketID 1; SetReasonString (s [120]); AddUserProp (s [1]) (s [2])])
+  /\ roundtrip KDisconnect (run_calls KDisconnect []).
+Proof.
+  cbv zeta. split.
+  - apply roundtrip_all. cbn [dom]. constructor.
+    + reflexivity.
+    + repeat constructor; vm_compute; reflexivity.
+    + repeat constructor; vm_compute; try reflexivity; discriminate.
+    + vm_compute. reflexivity.
+  - apply roundtrip_all. cbn [dom]. constructor.
+    + reflexivity.
+    + repeat constructor; vm_compute; reflexivity.
+    + constructor.
+    + vm_compute. reflexivity.
+Qed.
 
 (* concrete round trips through the model, one per type (tests) *)
 Example C01_examples :
